@@ -218,7 +218,7 @@ def norm_cases(suffix, wordT, widths, kind):
     return [R.Case('pack' + suffix, [kp], judge_pack), R.Case('unpack' + suffix, [ku], judge_unpack)]
 
 
-def unpack_shape(u, arg, pos, w, kind):
+def unpack_shape(u, arg, pos, w, kind, fw=32):
     want = (1 << w) - 1 if kind == 'unorm' else (1 << (w - 1)) - 1
     x = u
     clamped = False
@@ -252,9 +252,9 @@ def unpack_shape(u, arg, pos, w, kind):
         if k != want:
             msgs.append('divides by %s, a %d-bit %s field needs %d' % (k, w, kind, want))
     else:
-        exp = Fraction(nearest_f32(Fraction(1, want)))
+        exp = Fraction(nearest_f32(Fraction(1, want))) if fw == 32 else Fraction(float(Fraction(1, want)))
         if k != exp:
-            msgs.append('multiplies by %.10g, the correctly rounded 1/%d is %.10g' % (float(k), want, float(exp)))
+            msgs.append('multiplies by %.17g, the correctly rounded 1/%d is %.17g' % (float(k), want, float(exp)))
     # conversion of the field
     conv = a
     if conv.op not in ('uitofp', 'sitofp'):
@@ -266,14 +266,14 @@ def unpack_shape(u, arg, pos, w, kind):
         ok_signed = conv.op == 'sitofp' and (fld.op == 'sext' or fld.w == w)
         if not ok_signed:
             msgs.append('snorm field is not read with sign extension (%s of %s)' % (conv.op, tm.show(fld, 2)))
-        spec = S.gclamp(S.E(m), S.const(32, -1.0), S.const(32, 1.0)).t
+        spec = S.gclamp(S.E(m), S.const(fw, -1.0), S.const(fw, 1.0)).t
         if u is m:
             msgs.append('snorm unpack does not clamp to [-1,1] (the most negative code decodes below -1)')
         else:
-            qv = tm.inp('__q', 0, 32)
+            qv = tm.inp('__q', 0, fw)
             u_q, s_q = tm.substitute(u, {m: qv}), tm.substitute(spec, {m: qv})
             r = O.equivalent(u_q, s_q, nan=False)
-            if r is not True and not _same_on_code_range(u_q, s_q, qv, m, conv, w):
+            if r is not True and not _same_on_code_range(u_q, s_q, qv, m, conv, w, fw):
                 msgs.append('result is not clamp(q, -1, 1) of the scaled field')
     else:
         if conv.op == 'sitofp' and fld.op == 'sext':
@@ -285,7 +285,7 @@ def unpack_shape(u, arg, pos, w, kind):
     return R.PROVED, 'x = %s(field) %s %s%s' % (conv.op, '/' if m.op == 'fdiv' else '*', 'S' if m.op == 'fdiv' else 'round(1/%d)' % want, ', clamped to [-1,1]' if kind == 'snorm' else '')
 
 
-def _same_on_code_range(u_q, s_q, qv, m, conv, w):
+def _same_on_code_range(u_q, s_q, qv, m, conv, w, fw=32):
     """the decoder need only agree with clamp(q, -1, 1) for the values q = scaled field that a w-bit signed code can produce: q lies in [q(-2^(w-1)), q(2^(w-1) - 1)],
     both ends computed exactly (binary32) from the scaling term itself.  Both sides are selections between q and constants (piecewise q / constant), so agreement at
     the ends, at every constant breakpoint inside the range and at two points strictly inside each piece is agreement on the whole range."""
@@ -294,15 +294,15 @@ def _same_on_code_range(u_q, s_q, qv, m, conv, w):
         ends = []
         for code in (-(1 << (w - 1)), (1 << (w - 1)) - 1):
             cv = tm.const(conv.args[0].w, code & ((1 << conv.args[0].w) - 1))
-            ends.append(CE.b2f(32, CE.evaluate(tm.substitute(m, {conv.args[0]: cv}), {})))
+            ends.append(CE.b2f(fw, CE.evaluate(tm.substitute(m, {conv.args[0]: cv}), {})))
         lo, hi = min(ends), max(ends)
-        brk = sorted({tm.fval(c) for t in (u_q, s_q) for c in tm.walk(t) if c.op == 'const' and c.w == 32 and lo < tm.fval(c) < hi} | {lo, hi})
+        brk = sorted({tm.fval(c) for t in (u_q, s_q) for c in tm.walk(t) if c.op == 'const' and c.w == fw and lo < tm.fval(c) < hi} | {lo, hi})
         pts = set(brk)
         for a, b in zip(brk, brk[1:]):
             pts.add(a + (b - a) / 3)
             pts.add(a + 2 * (b - a) / 3)
         for x in sorted(pts):
-            env = {qv: CE.f2b(32, x)}
+            env = {qv: CE.f2b(fw, x)}
             if CE.evaluate(u_q, env) != CE.evaluate(s_q, env):
                 return False
         return True
@@ -699,32 +699,86 @@ def shared_exponent_cases():
     return [R.Case(name, [kp], jp), R.Case('unpackF3x9_E1x5', [ku], ju)]
 
 
-def template_cases():
-    """templated packUnorm<uintType>(vec<L,float>) / packSnorm / unpack*: same rules with the width of the integer type"""
+def template_cases(tier='quick'):
+    """templated packUnorm<uintType>(vec<L,floatType>) / packSnorm<intType> / unpackUnorm<floatType> / unpackSnorm<floatType>: the rules of the fixed formats with the width of the
+    integer type as the field width and the float type's own precision (the scale must be 2^w - 1 resp. 2^(w-1) - 1 exactly, the decoder's factor its correctly rounded reciprocal
+    in floatType, every lane its own field)"""
     cs = []
-    for L_ in (1, 2, 3, 4):
-        for it_, w in (('uint8', 8), ('uint16', 16)):
-            vt, pt = G.vec(L_, 'float'), G.vec(L_, it_)
-            kp = K('tpackUnorm_%d_%s' % (L_, it_), [Par('o', pt, False), Par('v', vt)], '*o = packUnorm<%s>(*v);' % G.SCALARS[it_][0], CFG)
+    combos = []
+    for fT in ('float', 'double'):
+        for w in (8, 16, 32, 64):
+            combos.append((fT, w))
+    for fT, w in combos:
+        fw = 32 if fT == 'float' else 64
+        for kind in ('unorm', 'snorm'):
+            it_ = ('uint%d' if kind == 'unorm' else 'int%d') % w
+            want = (1 << w) - 1 if kind == 'unorm' else (1 << (w - 1)) - 1
+            lo_, hi_ = (0.0, 1.0) if kind == 'unorm' else (-1.0, 1.0)
+            Name = 'Unorm' if kind == 'unorm' else 'Snorm'
+            for L_ in ((1, 2, 3, 4) if (tier == 'thorough' or w <= 16) else (1, 3)):
+                vt, pt = G.vec(L_, fT), G.vec(L_, it_)
+                kp = K('tpack%s_%d_%s_%s' % (Name, L_, it_, fT), [Par('o', pt, False), Par('v', vt)], '*o = pack%s<%s>(*v);' % (Name, G.SCALARS[it_][0]), CFG)
+                ku = K('tunpack%s_%d_%s_%s' % (Name, L_, it_, fT), [Par('o', vt, False), Par('p', pt)], '*o = unpack%s<%s>(*p);' % (Name, G.SCALARS[fT][0]), CFG)
+                tag = '%s<%s>(vec%d<%s>)' % (Name, it_, L_, fT)
 
-            def jp(ctx, kp=kp, vt=vt, pt=pt, w=w, L_=L_, it_=it_):
-                itx = ctx.fn(kp)
-                res = []
-                for i in range(L_):
-                    f = I.out_lane(itx, 'o', pt.lanes[i], pt.elem)
-                    oid = 'packUnorm<%s>(vec%d).comp%d' % (it_, L_, i)
-                    q = parse_quant(f)
-                    if q is None:
-                        res.append(R.ob(oid, 'quantisation', R.UNDECIDED, tm.show(f, 4)))
-                        continue
-                    conv, rfn, c, Sc = q
-                    spec = S.gclamp(S.lane('v', vt, i), S.const(32, 0.0), S.const(32, 1.0)).t
-                    r = O.equivalent(c, spec, nan=False) if O.in_fragment(c) else None
-                    ok = Sc == (1 << w) - 1 and rfn is not None and r is True
-                    res.append(R.ob(oid, 'quantisation', R.PROVED if ok else (R.REFUTED if (Sc != (1 << w) - 1 or rfn is None or (r and r is not True)) else R.UNDECIDED),
-                                    'scale %s, rounding %s, clamp %s' % (Sc, rfn, r is True), kernel=kp.source()))
-                return res
-            cs.append(R.Case('packUnorm<%s>(vec%d)' % (it_, L_), [kp], jp))
+                def jp(ctx, kp=kp, vt=vt, pt=pt, w=w, L_=L_, fw=fw, kind=kind, want=want, lo_=lo_, hi_=hi_, tag=tag):
+                    e = ctx.compile_error(kp)
+                    if e:
+                        return [R.ob('pack' + tag, 'existence', R.REFUTED, 'cannot be instantiated: ' + e, kernel=kp.source())]
+                    itx = ctx.fn(kp)
+                    res = []
+                    for i in range(L_):
+                        f = I.out_lane(itx, 'o', pt.lanes[i], pt.elem)
+                        oid = 'pack%s.comp%d' % (tag, i)
+                        lane_bits = {('v', vt.lanes[i] * 8 + b) for b in range(fw)}
+                        bd = bitdeps(f)
+                        if not (bd and bd <= lane_bits):
+                            res.append(R.ob(oid, 'placement', R.REFUTED, 'lane %d of the packed vector depends on component(s) %s' % (i, sorted({b // fw for a, b in bd - lane_bits})),
+                                            where=R.where_of(itx, f), kernel=kp.source()))
+                            continue
+                        q = parse_quant(f)
+                        if q is None:
+                            res.append(R.ob(oid, 'quantisation', R.UNDECIDED, tm.show(f, 4)))
+                            continue
+                        conv, rfn, c, Sc = q
+                        spec = S.gclamp(S.lane('v', vt, i), S.const(fw, lo_), S.const(fw, hi_)).t
+                        r = O.equivalent(c, spec, nan=False) if O.in_fragment(c) else None
+                        msgs = []
+                        if Sc != want:
+                            msgs.append('scale is %s but a %d-bit %s code needs %d' % (Sc, w, kind, want))
+                        if rfn is None:
+                            msgs.append('no rounding before the integer conversion')
+                        if r is not True and r:
+                            msgs.append('value is not clamped to [%g,%g]: case [%s]' % (lo_, hi_, r[1]))
+                        if kind == 'snorm' and conv == 'fptoui':
+                            msgs.append('snorm code converted with an unsigned conversion')
+                        if msgs:
+                            res.append(R.ob(oid, 'quantisation', R.REFUTED, '; '.join(msgs), where=R.where_of(itx, f), kernel=kp.source()))
+                        elif r is True:
+                            res.append(R.ob(oid, 'quantisation', R.PROVED, 'code = %s(%s(clamp(x,%g,%g) * %d))' % (conv, rfn, lo_, hi_, want), kernel=kp.source()))
+                        else:
+                            res.append(R.ob(oid, 'quantisation', R.UNDECIDED, 'clamp not recognisable: %s' % tm.show(c, 4)))
+                    return res
+
+                def ju(ctx, ku=ku, vt=vt, pt=pt, w=w, L_=L_, fw=fw, kind=kind, tag=tag):
+                    e = ctx.compile_error(ku)
+                    if e:
+                        return [R.ob('unpack' + tag, 'existence', R.REFUTED, 'cannot be instantiated: ' + e, kernel=ku.source())]
+                    itx = ctx.fn(ku)
+                    res = []
+                    for i in range(L_):
+                        u = I.out_lane(itx, 'o', vt.lanes[i], vt.elem)
+                        oid = 'unpack%s.comp%d' % (tag, i)
+                        fb = {('p', pt.lanes[i] * 8 + b) for b in range(w)}
+                        bd = bitdeps(u)
+                        if not (bd and bd <= fb):
+                            res.append(R.ob(oid, 'field_isolation', R.REFUTED, 'component %d depends on bits outside lane %d of the packed vector' % (i, i), where=R.where_of(itx, u), kernel=ku.source()))
+                            continue
+                        st, detail = unpack_shape(u, 'p', pt.lanes[i] * 8, w, kind, fw)
+                        res.append(R.ob(oid, 'dequantisation', st, detail, where=R.where_of(itx, u) if st != R.PROVED else None, kernel=ku.source()))
+                    return res
+                cs.append(R.Case('pack' + tag, [kp], jp))
+                cs.append(R.Case('unpack' + tag, [ku], ju))
     return cs
 
 
@@ -737,7 +791,7 @@ def cases(tier):
     cs += bitfield_int_cases()
     cs += small_float_cases()
     cs += shared_exponent_cases()
-    cs += template_cases()
+    cs += template_cases(tier)
     cs += canaries()
     return cs
 
